@@ -8,12 +8,13 @@ import numpy as np
 import xarray as xr
 
 
-def make_disp(disp, flags, conf=None, indicators=None, row0=0, col0=0):
+def make_disp(disp, flags, conf=None, indicators=None, row0=0, col0=0, dtype="float32"):
     """A disparity dataset as the disparity step leaves it."""
     rows, cols = np.shape(disp)
     ds = xr.Dataset(
         {
-            "disparity_map": (["row", "col"], np.array(disp, dtype=np.float32)),
+            # float32 in Pandora's own pipeline; an API caller may hand a float64 map
+            "disparity_map": (["row", "col"], np.array(disp, dtype=np.dtype(dtype))),
             "validity_mask": (["row", "col"], np.array(flags, dtype=np.uint16)),
         },
         coords={"row": np.arange(row0, row0 + rows), "col": np.arange(col0, col0 + cols)},
@@ -28,7 +29,9 @@ def make_disp(disp, flags, conf=None, indicators=None, row0=0, col0=0):
 
 def observe(ds):
     out = {
-        "disparity_map": np.array(ds["disparity_map"].data),
+        # values are observed at float32 precision (what Pandora's own maps carry): a float64 map handed by an API caller
+        # shows last-bit rounding of the weighted mean, which the exact specification must not be asked to explain
+        "disparity_map": np.array(ds["disparity_map"].data).astype(np.float32),
         "validity_mask": np.array(ds["validity_mask"].data),
         "mask_dtype": str(ds["validity_mask"].data.dtype),
     }
